@@ -102,6 +102,48 @@ def simplify(case):
 simplifiers = (simplify,)
 
 
+def comfortably_solvable(block, obj):
+    """Plain Jacobi sweeps (sum-of-absolute-changes norm, like the emitted module) for the period the module gave up on,
+    from the module's own previous-period values: True iff they reach tol/4 within half the module's sweep cap."""
+    try:
+        step = int(obj.STEP)
+        tol = float(obj.Err_Tolerance)
+        cap = int(obj.MaxIterations)
+        lagv = {l: s_ for l, s_, _ in block.get('lags', [])}
+        exo = set(v for v, _ in block.get('exo', []))
+        exov = eqn.exo_values(block, int(obj.MaxTime))
+        env = {}
+        for v in eqn.block_vars(block):
+            if v in lagv:
+                continue
+            ser = list(getattr(obj, v))
+            if len(ser) < step:
+                return False
+            env[v] = ser[step - 1]
+        for l, src in lagv.items():
+            env[l] = env[src]
+        for xv in exo:
+            val = exov.get(xv)
+            if isinstance(val, Exception):
+                return False
+            env[xv] = val if isinstance(val, float) else list(val)[step]
+        env['k'] = float(step)
+        if hasattr(obj, 't') and 't' not in env:
+            env['t'] = float(step)
+        unknown = [(v, r) for v, r in block['eqs'] if v not in exo]
+        for sweep in range(max(cap // 2, 1)):
+            new = {v: eqn.ev(r, env) for v, r in unknown}
+            err = sum(abs(new[v] - env[v]) for v, _ in unknown)
+            env.update(new)
+            if not core.is_finite_number(err):
+                return False
+            if err <= tol / 4.0:
+                return True
+        return False
+    except Exception:   # noqa
+        return False
+
+
 def execute(case):
     core.import_sut()
     from sfc_models.deprecated.iterative_machine_generator import IterativeMachineGenerator
@@ -176,6 +218,16 @@ def execute(case):
         cause = 'other'
         if cls == 'NameError' and "'k'" in str(ex):
             cause = 'k-undefined'
+        if phase == 'run' and cls == 'ValueError' and 'No Convergence' in str(ex) and block is not None:
+            # a loud refusal within the module's own sweep cap. It contradicts "runs without error" only for a block whose
+            # fixed point is comfortably within reach of plain sweeps at the stated tolerance (lag dynamics may blow the
+            # values up until an absolute 1e-10 is below the floating-point spacing): decided by an independent plain
+            # Jacobi reference with half the cap and a quarter of the tolerance
+            if not comfortably_solvable(block, obj):
+                stats['probes']['nonconvergence_inconclusive'] = 1
+                return {'violations': [], 'stats': stats, 'sig': sig, 'digest': core.digest([phase, cls, 'inconclusive']),
+                        'nontrivial': False}
+            cause = 'within-reach-of-plain-sweeps'
         viol.append(core.violation(ID, 'generated-module-failed', 'generated-module-failed:%s:%s:%s' % (phase, cls, cause),
                                    phase=phase, error=cls, message=str(ex)[0:200], time_axis=case.get('time_axis')))
         return {'violations': viol, 'stats': stats, 'sig': sig, 'digest': core.digest([phase, cls]), 'nontrivial': True}
